@@ -11,6 +11,10 @@ Lines:
   `e<d>` (EOF), `x<d>` (read error), `c` (cancel).
   Answer: `d0=<delivered>/<closeWrites> d1=… closed=<first>/<second> aud=<first>/<second>`
   (`aud=-` when no auditors were passed).
+* `sock <unix|tcp> <ab|ba|cancel> <hex A> <hex B>` — `ForwardAndClose` between
+  real socket pairs; both peers send and half-close (A first / B first), or B
+  keeps its side open and the context is cancelled once everything arrived.
+  Answer: `ab=<B received>/<B saw EOF> ba=<A received>/<A saw EOF> closed=…/… aud=<first>/<second>`.
 * `fwd <events>` — the controller's forwarding loop; events `o` (open), `of`
   (destination open fails), `s` (source open fails), `snap`, `<k>.<event>`.
   Answer: `c<k>=<d0 delivered>/<cw>/<d1 delivered>/<cw>/<closed first>/<closed second>`
@@ -60,8 +64,28 @@ def showDir (d : Dir) : String := s!"{encHex d.delivered}/{d.closeWrites}"
 def showCounters (c : Counters) : String :=
   s!"{c.openConnections}/{c.totalConnections}/{c.inbound}/{c.outbound}"
 
+/-- Script of a real-socket scenario (`sock` lines): peer A's payload travels
+first → second (direction `true`), peer B's payload second → first. -/
+def sockScript (mode : String) (pa pb : List UInt8) : Option (List Event) :=
+  let ca : List Event := if pa.isEmpty then [] else [.chunk true pa pa.length false]
+  let cb : List Event := if pb.isEmpty then [] else [.chunk false pb pb.length false]
+  match mode with
+  | "ab" => some (ca ++ [.eof true] ++ cb ++ [.eof false])
+  | "ba" => some (cb ++ [.eof false] ++ ca ++ [.eof true])
+  | "cancel" => some (ca ++ [.eof true] ++ cb ++ [.cancel])
+  | _ => none
+
 def handle (line : String) : String :=
   match fields line with
+  | ["sock", _kind, mode, a, b] =>
+    match decHex a, decHex b with
+    | some pa, some pb =>
+      match sockScript mode pa pb with
+      | some es =>
+        let c := Conn.run es
+        s!"ab={showDir c.d1} ba={showDir c.d0} closed={c.closedFirst}/{c.closedSecond} aud={c.d0.audited}/{c.d1.audited}"
+      | none => "bad-op"
+    | _, _ => "bad-op"
   | ["fac", aud, es] =>
     match parseEvents es with
     | some es =>
